@@ -3,6 +3,7 @@ package main
 import (
 	"fmt"
 	"os"
+	"runtime/debug"
 )
 
 var commands = map[string]func([]string){
@@ -26,6 +27,8 @@ var commands = map[string]func([]string){
 }
 
 func main() {
+	// a runaway recursion in the code under test must end quickly as "fatal error: stack overflow", not as an OOM kill
+	debug.SetMaxStack(32 << 20)
 	if len(os.Args) < 2 {
 		fmt.Fprintln(os.Stderr, "usage: driver <command> [flags]")
 		os.Exit(2)
